@@ -823,6 +823,9 @@ func (Olvm) Gen(c *Ctx) []Tx {
 	if c.Rng.Intn(7) == 0 {
 		out = append(st.staleScenario(c, v, &snd), out...)
 	}
+	if olvmFlag(c, "olvm-basefee", OlvmBasefee) && c.Rng.Intn(6) == 0 {
+		out = append(st.panicScenario(c, &snd), out...)
+	}
 	n := 1
 	switch r := c.Rng.Intn(10); {
 	case r >= 8:
@@ -885,6 +888,28 @@ func (st *olvmState) staleScenario(c *Ctx, v *olvmView, snd *[]*olvmSender) []Tx
 		out = append(out, st.tx(c, y, &xa, olvmSmall(c), nil, 50000, "OLVM/stale-pay-x", nil))
 	} else {
 		out = append(out, st.tx(c, x, &ya, olvmSmall(c), nil, 50000, "OLVM/stale-x-pays", nil))
+	}
+	for i := range out {
+		out[i].Group = grp
+	}
+	return out
+}
+
+// panicScenario: a call that moves value into a contract and then panics inside the EVM (BASEFEE with a nil
+// base fee; the controller answers the panic with an error code and drops the transaction), then - in
+// this order in the same block - a call by another account that moves value into the same contract.
+// Whatever the aborted transaction left behind in the VM's object cache would be written by the second.
+func (st *olvmState) panicScenario(c *Ctx, snd *[]*olvmSender) []Tx {
+	k := st.pick(c, "env")
+	if k == nil || len(*snd) < 2 {
+		return nil
+	}
+	x, y := (*snd)[0], (*snd)[1]
+	*snd = (*snd)[2:]
+	grp := "panic" + strconv.FormatInt(c.H, 10)
+	out := []Tx{
+		st.tx(c, x, &k.Addr, olvmSmall(c), olvmData(4), 200000, "OLVM/basefee-with-value", &olvmOpt{noBump: true}),
+		st.tx(c, y, &k.Addr, olvmSmall(c), olvmData(2), 200000, "OLVM/env-log-after-panic", nil),
 	}
 	for i := range out {
 		out[i].Group = grp
